@@ -824,3 +824,48 @@ mod tests {
         tower::ServiceExt::boxed_clone(tower::service_fn(handle))
     }
 }
+
+#[cfg(feature = "verif-hooks")]
+pub(crate) mod verif_hooks {
+    //! Thin wrappers for the external verification harness; they only call the private functions above.
+    use super::*;
+
+    pub fn tie_break(
+        own: &PeerId,
+        remote: &PeerId,
+        existing: ConnectionOrigin,
+        new: ConnectionOrigin,
+    ) -> bool {
+        ActivePeersInner::simultaneous_dial_tie_breaking(own, remote, existing, new)
+    }
+
+    /// Runs `DialBackoffState::new` followed by `failures - 1` calls to `update`, all at the same `now`.
+    /// Returns (attempts, backoff - now).
+    pub fn dial_backoff_after(
+        failures: usize,
+        backoff_step: std::time::Duration,
+        max_backoff: std::time::Duration,
+    ) -> (usize, std::time::Duration) {
+        let now = std::time::Instant::now();
+        let mut state = DialBackoffState::new(now, backoff_step, max_backoff);
+        for _ in 1..failures {
+            state.update(now, backoff_step, max_backoff);
+        }
+        (state.attempts, state.backoff - now)
+    }
+
+    /// One `update` from a state with the given number of attempts. Returns (attempts, backoff - now).
+    pub fn dial_backoff_update_from(
+        attempts: usize,
+        backoff_step: std::time::Duration,
+        max_backoff: std::time::Duration,
+    ) -> (usize, std::time::Duration) {
+        let now = std::time::Instant::now();
+        let mut state = DialBackoffState {
+            backoff: now,
+            attempts,
+        };
+        state.update(now, backoff_step, max_backoff);
+        (state.attempts, state.backoff - now)
+    }
+}
